@@ -575,6 +575,19 @@ class Branch:
         return str(v)
 
 
+def _labels_for(br, prog, v):
+    """Set of labels an out-edge stands for: the `otherwise` edge of an enum switch is expanded to the
+    variants it covers."""
+    if v == "else" and br.adt:
+        a = prog.adts.get(br.adt)
+        if a:
+            listed = {c for c, _ in br.cases}
+            rest = {vv["n"] for vv in a["variants"] if vv["d"] not in listed}
+            if rest:
+                return rest
+    return {br.label(prog, v)}
+
+
 def branches(fv, rend=None):
     rend = rend or Renderer(fv)
     out = {}
@@ -631,8 +644,10 @@ def guards_of(fv, target, brs=None, prog=None):
             # can target be reached from entry if only this out-edge of bi is usable?
             other = {(bi, l2, b2) for l2, b2 in fv.succ[bi] if not (l2 == v and b2 == b)}
             if target in fv.reach(fv.entry, (), other):
-                ok_labels.add(br.label(prog, v))
-        all_labels = {br.label(prog, v) for v, _ in edges}
+                ok_labels |= _labels_for(br, prog, v)
+        all_labels = set()
+        for v, _ in edges:
+            all_labels |= _labels_for(br, prog, v)
         if ok_labels and ok_labels != all_labels:
             out.append((br, ok_labels))
     return out
